@@ -229,6 +229,30 @@ theorem h_traffic (w : World) (f : Nat) (c : Cmd) :
         · intro g hg; simp at hg
         · intro h0; exact absurd h0 hid
 
+theorem dnsFwd_holds (w : World) (f : Nat) (c : Cmd) (q : Bool) (n : Nat) (t : Int) (tc : Nat)
+    (hid : ident w f ≠ 0) (htc : online w n t = some tc) :
+    holdsRun w f c true (dnsFwd w f q tc) = true := by
+  obtain ⟨hcl, hne⟩ := online_client w _ _ tc htc
+  have hd : dlvAllowed w (ident w f) f ⟨tc, if q then c11.cmd.DNSQuery else c11.cmd.DNSResolve, none⟩ = true := by
+    simp only [dlvAllowed, Bool.or_eq_true, beq_iff_eq, Bool.and_eq_true, bne_iff_ne, ne_eq]
+    right
+    refine ⟨⟨hid, by rw [hcl]; exact hne⟩, ?_⟩
+    cases q <;> simp [c11.cmd.DNSQuery, c11.cmd.DNSResolve, c11.cmd.TunnelOpenRequestCmd, c11.cmd.NotifyClient]
+  unfold dnsFwd
+  split
+  · apply holdsRun_intro
+    · intro o ho; simp at ho
+    · intro x hx; simp at hx
+    · intro d hd'; simp only [List.mem_singleton] at hd'; subst hd'; exact hd
+    · intro g hg; simp at hg
+    · intro h0; exact absurd h0 hid
+  · apply holdsRun_intro
+    · intro o ho; simp at ho
+    · intro x hx; simp at hx
+    · intro d hd'; simp only [List.mem_singleton] at hd'; subst hd'; exact hd
+    · intro g hg; simp at hg
+    · intro h0; exact absurd h0 hid
+
 theorem h_dnsReq (w : World) (f : Nat) (c : Cmd) (q : Bool) :
     holdsRun w f c true (execH .repaired (.dnsReq q) w f c) = true := by
   simp only [execH]
@@ -242,27 +266,20 @@ theorem h_dnsReq (w : World) (f : Nat) (c : Cmd) (q : Bool) :
       · exact holdsRun_dnsErr ..
       · rename_i t _
         split
-        · exact holdsRun_dnsErr ..
         · rename_i tc htc
-          obtain ⟨hcl, hne⟩ := online_client w _ _ tc htc
-          have hd : dlvAllowed w (ident w f) f ⟨tc, if q then c11.cmd.DNSQuery else c11.cmd.DNSResolve, none⟩ = true := by
-            simp only [dlvAllowed, Bool.or_eq_true, beq_iff_eq, Bool.and_eq_true, bne_iff_ne, ne_eq]
-            right
-            refine ⟨⟨hchk, by rw [hcl]; exact hne⟩, ?_⟩
-            cases q <;> simp [c11.cmd.DNSQuery, c11.cmd.DNSResolve, c11.cmd.TunnelOpenRequestCmd, c11.cmd.NotifyClient]
-          split
-          · apply holdsRun_intro
-            · intro o ho; simp at ho
-            · intro x hx; simp at hx
-            · intro d hd'; simp only [List.mem_singleton] at hd'; subst hd'; exact hd
-            · intro g hg; simp at hg
-            · intro h0; exact absurd h0 hchk
-          · apply holdsRun_intro
-            · intro o ho; simp at ho
-            · intro x hx; simp at hx
-            · intro d hd'; simp only [List.mem_singleton] at hd'; subst hd'; exact hd
-            · intro g hg; simp at hg
-            · intro h0; exact absurd h0 hchk
+          exact dnsFwd_holds w f c q _ t tc hchk htc
+        · split
+          · split
+            · rename_i tc rest hl
+              have hm : tc ∈ (nodes w).filterMap (fun n => if n == nodeOf w f then none else online w n t) := by
+                rw [hl]; simp
+              simp only [List.mem_filterMap] at hm
+              obtain ⟨n, _, hn⟩ := hm
+              split at hn
+              · cases hn
+              · exact dnsFwd_holds w f c q n t tc hchk hn
+            · exact holdsRun_dnsErr ..
+          · exact holdsRun_dnsErr ..
 
 theorem h_disconnect (w : World) (f : Nat) (c : Cmd) (na : Bool) :
     holdsRun w f c na (execH .repaired .disconnect w f c) = true := by
